@@ -20,6 +20,7 @@ func propC13() *Property {
 			{ID: "R13.2", Floor: 4, Text: "every non-parse store to dataAckStruct.unAckSeq has the value Session.nextRecv.Load()", Run: r13_2},
 			{ID: "R13.3", Floor: 4, Text: "sendBuf deletions: DeleteMinIf only with the predicate seq < unAckSeq taken from the received segment, DeleteAll only in closeWithError, DeleteMin never; sendBuf.Insert(seg) dominates output(seg) in the new-segment loop", Run: r13_3},
 			{ID: "R13.4", Floor: 20, Text: "segment identity fields are written only in composite literals (construction) and in the Unmarshal methods", Run: r13_4},
+			{ID: "R13.6", Floor: 6, Text: "the payload of a segment never aliases a buffer owned by the caller: every store to segment.payload is a fresh make, a decrypt result, or nil (a retransmission must not see later writes to the application's buffer)", Run: r13_6},
 			{ID: "R13.5", Floor: 5, Text: "every Session.nextSend.Add has argument 1, runs with oLock held, and the same block sequence builds a segment whose seq is nextSend.Load()", Run: r13_5},
 		},
 	}
@@ -599,4 +600,48 @@ func publishedBefore(fn *ssa.Function, objs []*ssa.Alloc, store ssa.Instruction)
 		}
 	})
 	return hit
+}
+
+func r13_6(c *RC) {
+	p := c.P
+	pl := p.Field(protoPkg, "segment", "payload")
+	if pl == nil {
+		c.Anchor("segment.payload")
+		return
+	}
+	for _, s := range p.FieldStores(pl) {
+		key := "payload-owner@" + fnName(s.Fn)
+		bad := ""
+		for _, l := range Leaves(s.Val, nil) {
+			switch x := l.(type) {
+			case *ssa.Parameter:
+				bad = "parameter " + x.Name()
+			case *ssa.FreeVar:
+				bad = "captured variable " + x.Name()
+			case *ssa.UnOp:
+				// load of a field of another object: allowed only for segment.payload copies
+				if f := fieldOrigin(x); f != nil && !sameField(f, pl) {
+					bad = "field " + f.Name()
+				}
+			}
+		}
+		if bad != "" {
+			c.Bad(key, s.Pos(), "segment.payload is set to a slice of %s: the segment shares memory with a buffer its creator does not own, so a retransmission can carry different bytes than the first transmission", bad)
+		} else {
+			c.OKH(key, s.Pos(), "payload is a fresh buffer / decrypt result / nil (%s)", leafKinds(s.Val))
+		}
+	}
+}
+
+func leafKinds(v ssa.Value) string {
+	var ks []string
+	seen := map[string]bool{}
+	for _, l := range Leaves(v, nil) {
+		k := leafKind(l)
+		if !seen[k] {
+			seen[k] = true
+			ks = append(ks, k)
+		}
+	}
+	return strings.Join(ks, ",")
 }
